@@ -56,6 +56,12 @@ def install(ex):
             MODEL_NAMES.add(re.sub(r"<.*?>", "<_>", c)[:80]); return r
         return base(callee, a)
     def _model(c, callee, a):
+        mref = re.match(r"^<&(mut )?(.+) as (PartialEq|std::cmp::PartialEq)(<.*>)?>::(eq|ne)$", c)
+        if mref and not re.match(r"^(str|usize|i64|bool|isize|TyID|std::string::String)$", mref.group(2)):
+            x = a[0].get() if isinstance(a[0], Ref) else a[0]; y = a[1].get() if isinstance(a[1], Ref) else a[1]
+            r = ex.call("<%s as PartialEq>::eq" % mref.group(2), [x, y])
+            if mref.group(5) == "eq": return r
+            return (not r) if isinstance(r, bool) else z3.Not(r)
         # ---------------- Option
         if c.startswith("Option::") or re.match(r"^Option::<.*>::", callee):
             name = c.split("::")[-1]; o = deref(a[0]) if a else None
